@@ -193,7 +193,7 @@ func (Engine) Run(c *simkit.Choices, x *simkit.Ctx) *simkit.Violation {
 			case "reader", "decoder-reader":
 				sc.Reads = drawReads(c, len(data))
 				sc.EOFWithData = c.Bool()
-				sc.BufSize = []int{1, 2, 3, 7, 16, 64, 4096}[c.N(7)]
+				sc.BufSize = common.DrawBufSize(c)
 				st.Fault("short-read")
 			}
 			st.Eval(1)
@@ -412,7 +412,7 @@ func truncation(c *simkit.Choices, x *simkit.Ctx, cd *common.Codec, f model.Form
 			if entry == "reader" || entry == "decoder-reader" {
 				sc.Reads = drawReads(c, len(data))
 				sc.EOFWithData = c.Bool()
-				sc.BufSize = []int{1, 2, 3, 7, 16, 64, 4096}[c.N(7)]
+				sc.BufSize = common.DrawBufSize(c)
 			}
 			st.Eval(1)
 			st.Fault("truncate")
